@@ -256,7 +256,9 @@ func runC20(rt *rapid.T) {
 		case "async":
 			err = w.conn.SendDataMessageAsync(ctx, 6, 13, false, body)
 		case "forward":
-			m, _ := hsms.NewDataMessage(5, 1, false, 0xffff, sysArr(0xD0000000+uint32(k)), body)
+			// a relayed primary may itself expect a reply (W-bit): the forward path does not wait for it,
+			// and must not count it as in flight
+			m, _ := hsms.NewDataMessage(5, 1, k%3 != 0, 0xffff, sysArr(0xD0000000+uint32(k)), body)
 			err = w.conn.ForwardDataMessage(ctx, m)
 		default:
 			prim, _ := hsms.NewDataMessage(3, 1, true, 0xffff, sysArr(0xC0000000+uint32(k)), nil)
@@ -292,7 +294,7 @@ func runC20(rt *rapid.T) {
 	quiescent("the first select")
 	phases := rapid.IntRange(2, 8).Draw(rt, "phases")
 	for ph := 0; ph < phases; ph++ {
-		op := rapid.SampledFrom([]string{"burst", "burst", "fire", "inbound", "refused", "race-deselect", "race-drop", "drop-pending", "write-error", "close-reopen"}).Draw(rt, "phase")
+		op := rapid.SampledFrom([]string{"burst", "burst", "fire", "inbound", "refused", "race-deselect", "race-drop", "drop-pending", "write-error", "close-reopen", "close-at-retry"}).Draw(rt, "phase")
 		logf("phase %s", op)
 		switch op {
 		case "burst":
@@ -424,6 +426,27 @@ func runC20(rt *rapid.T) {
 			if active {
 				reconnects++
 			}
+		case "close-at-retry":
+			// The link drops and the peer stays unreachable (an active endpoint's dials are refused, a
+			// passive one listens in vain); Close then lands AT the instant one of the backoff sleeps of
+			// the reconnect loop expires (or a millisecond around it): whichever of the loop's exits is
+			// taken, the reconnecting gauge must be back at zero once Close has returned.
+			_ = p.C.Close()
+			selected, linkUp = false, false
+			synctest.Wait()
+			attempt := rapid.IntRange(0, 2).Draw(rt, "attempt")
+			at := []time.Duration{40, 120, 200}[attempt]*time.Millisecond + time.Duration(rapid.SampledFrom([]int{0, 0, 0, -1, 1}).Draw(rt, "offMs"))*time.Millisecond
+			time.Sleep(at)
+			if err := w.conn.Close(); err != nil {
+				fail("Close: %v", err)
+			}
+			isOpen = false
+			quiescent(fmt.Sprintf("Close %v after the drop (backoff 40/80/80 ms)", at))
+			if active {
+				_ = w.listen()
+			}
+			openIt()
+			connect()
 		case "close-reopen":
 			if err := w.conn.Close(); err != nil {
 				fail("Close: %v", err)
